@@ -84,7 +84,7 @@ def run(m, chk):
         "Static discharge of structural clauses of C18: normalize does not obtain the upper limit as x * (1/x) (rule R: IEEE arithmetic does not round that to 1 for every x, x / x does); shift / scale / normalize commit once, "
         "last (through the validated setter); generator results depend on degree, npts and cls / weights. Spacing, simplicity of interior knots and invariance of evaluation under reparametrisation are not decided."
     )
-    chk.decides = ["NP-SCALAR (elements of numpy arrays are converted with int() / float() before cls(...) sees them)", "TOL-ABSOLUTE (knot identity is decided on differences, never with a tolerance relative to the knots)", "E8 (exact knots stay exact under shift / scale / normalize and in the generators with cls = Fraction)", "R (no multiplication by a reciprocal of an own element)", "COMMIT-LAST(shift, scale, normalize)", "DEP-MAY of the generators", 'NORMALIZE-PATHS', 'SIBLING-CAST (weight() converts no weight to the class of another weight)']
+    chk.decides = ["CLAMP-SAME (the trailing clamped copies of weight() are the last cumulative knot itself)", "NP-SCALAR (elements of numpy arrays are converted with int() / float() before cls(...) sees them)", "TOL-ABSOLUTE (knot identity is decided on differences, never with a tolerance relative to the knots)", "E8 (exact knots stay exact under shift / scale / normalize and in the generators with cls = Fraction)", "R (no multiplication by a reciprocal of an own element)", "COMMIT-LAST(shift, scale, normalize)", "DEP-MAY of the generators", 'NORMALIZE-PATHS', 'SIBLING-CAST (weight() converts no weight to the class of another weight)']
     chk.not_decided = ["equal spacing / simple interior knots", "N_i over s*U+a at s*u+a equals N_i over U at u"]
     q = KV + "normalize"
     ctx = r.root(q)
@@ -129,6 +129,23 @@ def run(m, chk):
         chk.ob("NORMALIZED", f"{G + name}: the result is normalised on every path", ok, loc=r.loc(c2, c2.fi.node), detail="" if ok else f"{G + name}: a vector is returned without normalize(): the interval is not [0, 1]", func=G + name, construct="generator skips normalize")
     # exact knots stay exact: no float introduced by the library reaches the vector a generator returns (cls = Fraction) or the
     # state shift / scale / normalize write (number-kind analysis of the exact context, as in C16)
+    # weight(): the trailing clamped copies are the last cumulative knot itself (`L[-1]`), not a second computation of the total:
+    # a float sum taken another way (sum() is compensated since Python 3.12) differs by an ulp and the vector is not clamped
+    wq = G + "weight"
+    wfi = r.prog.func(wq)
+    pads = []
+    for b_ in ast.walk(wfi.node):
+        if isinstance(b_, ast.BinOp) and isinstance(b_.op, ast.Add) and isinstance(b_.right, ast.BinOp) and isinstance(b_.right.op, ast.Mult):
+            lst = b_.right.right if isinstance(b_.right.right, ast.List) else b_.right.left if isinstance(b_.right.left, ast.List) else None
+            mid = b_.left.right if isinstance(b_.left, ast.BinOp) and isinstance(b_.left.op, ast.Add) else b_.left
+            if lst is not None and len(lst.elts) == 1 and isinstance(mid, ast.Name):
+                pads.append((b_, lst.elts[0], mid.id))
+    chk.floor("CLAMP-SAME", f"trailing clamped copies in {wq}", len(pads), 1)
+    for b_, el, mid in pads:
+        okp = isinstance(el, ast.Subscript) and isinstance(el.value, ast.Name) and el.value.id == mid and seg(el.slice) in ("-1", "len(%s) - 1" % mid)
+        chk.ob("CLAMP-SAME", f"{wq}: the trailing copies are `{mid}[-1]` itself", okp, loc=f"{wfi.module}.py:{b_.lineno}",
+               detail="" if okp else f"{wq}: the trailing clamped copies are `{seg(el, 30)}`, not the last element of `{mid}`: computed separately, the total of float weights can differ by an ulp from the running sum (0.1 + 0.2 + 0.3), the last knot then occurs once instead of degree + 1 times and the vector is refused (ValueError) for weights that are perfectly valid",
+               func=wq, construct="trailing copies not the last knot itself")
     from .extra import np_scalar
 
     np_scalar(r, chk, [G + f_ for f_ in ("bezier", "integer", "uniform", "random", "weight")], floor=3)
